@@ -313,3 +313,117 @@ Proof.
     destruct (qph c); discriminate.
 Qed.
 End StopFinal.
+
+(* ---- no deadlock ----------------------------------------------------------------------------------------- *)
+Section StopProgress.
+Context {V : Type}.
+Variable ncons : nat.
+Variable beh : nat -> list (res V) -> cact.
+Notation qstate := (@qstate V).
+Notation qcons := (@qcons V).
+Notation qstep := (qstep ncons beh).
+Notation qrun := (qrun ncons beh).
+
+Lemma qstep_disabled : forall (m : qstate) ch, qenabled m ch = false -> qstep m ch = m.
+Proof.
+  intros [src pp cs err fed] ch H. destruct ch as [| | | |j|j]; cbn [qenabled CopyProdStop.qstep qcs qsrc qpp qerr qfed] in *.
+  - destruct pp; try reflexivity. discriminate.
+  - destruct pp as [|x i|]; try reflexivity. destruct (nth_error cs i) as [[log ph]|]; try reflexivity. destruct ph; try reflexivity; discriminate.
+  - destruct pp as [|x i|]; try reflexivity. destruct (nth_error cs i) as [[log ph]|]; try reflexivity. destruct ph; try reflexivity; discriminate.
+  - destruct pp; try reflexivity. rewrite H. reflexivity.
+  - destruct (nth_error cs j) as [[log ph]|]; try reflexivity. destruct ph; try reflexivity; discriminate.
+  - destruct pp; try reflexivity. destruct (nth_error cs j) as [[log ph]|]; try reflexivity. destruct ph; try reflexivity; discriminate.
+Qed.
+
+Lemma qwsum_set : forall (cs : list qcons) j c c', nth_error cs j = Some c ->
+  qwsum (set_nth j c' cs) + qweight c = qwsum cs + qweight c'.
+Proof.
+  induction cs as [|c0 cs IH]; intros [|j] c c' H; cbn [nth_error] in H; try discriminate.
+  - injection H as ->. cbn [set_nth qwsum fold_right]. lia.
+  - cbn [set_nth qwsum fold_right]. specialize (IH j c c' H). unfold qwsum in IH. lia.
+Qed.
+
+Lemma qstep_enabled : forall (m : qstate) ch, (forall x j, qpp m = PDist x j -> j < ncons) -> qenabled m ch = true ->
+  qmeasure ncons (qstep m ch) < qmeasure ncons m.
+Proof.
+  intros [src pp cs err fed] ch Hcur H. unfold qmeasure. cbn [qpp] in Hcur.
+  destruct ch as [| | | |j|j]; cbn [qenabled CopyProdStop.qstep qcs qsrc qpp qerr qfed] in *.
+  - destruct pp; try discriminate. destruct src as [|x r]; cbn [qcs qsrc qpp length qpweight]; [lia|].
+    unfold qnorm. destruct (Nat.ltb_spec 0 ncons); cbn [qcs qsrc qpp length qpweight]; lia.
+  - destruct pp as [|x i|]; try discriminate. destruct (nth_error cs i) as [[log ph]|] eqn:Hi; try discriminate. destruct ph; try discriminate.
+    pose proof (Hcur x i eq_refl). pose proof (qwsum_set cs i _ (mkQ (log ++ [x]) QBusy) Hi) as Hw. cbn [qweight qph] in Hw.
+    unfold qnorm. destruct (Nat.ltb_spec (S i) ncons); cbn [qcs qsrc qpp length qpweight]; lia.
+  - destruct pp as [|x i|]; try discriminate. destruct (nth_error cs i) as [[log ph]|] eqn:Hi; try discriminate.
+    pose proof (Hcur x i eq_refl).
+    destruct ph; try discriminate; unfold qnorm; destruct (Nat.ltb_spec (S i) ncons); cbn [qcs qsrc qpp length qpweight]; lia.
+  - destruct pp as [|x i|]; try discriminate. rewrite H. cbn [qcs qsrc qpp length qpweight]. lia.
+  - destruct (nth_error cs j) as [[log ph]|] eqn:Hj; try discriminate. destruct ph; try discriminate.
+    destruct (beh j log); cbn [qcs qsrc qpp];
+      match goal with |- context [set_nth j ?c' cs] => pose proof (qwsum_set cs j _ c' Hj) as Hw end; cbn [qweight qph] in Hw; lia.
+  - destruct pp; try discriminate. destruct (nth_error cs j) as [[log ph]|] eqn:Hj; try discriminate. destruct ph; try discriminate.
+    cbn [qcs qsrc qpp]. pose proof (qwsum_set cs j _ (mkQ log QEnded) Hj) as Hw. cbn [qweight qph] in Hw. lia.
+Qed.
+
+Lemma nonfinal_exists : forall cs : list qcons, forallb (@qfinal V) cs = false ->
+  exists j c, nth_error cs j = Some c /\ (qph c = QRecv \/ qph c = QBusy).
+Proof.
+  induction cs as [|c cs IH]; intro H; [discriminate|]. cbn [forallb] in H.
+  destruct (qfinal c) eqn:E.
+  - cbn in H. destruct (IH H) as (j & c' & Hj & Hp). exists (S j), c'. split; assumption.
+  - exists 0, c. split; [reflexivity|]. unfold qfinal in E. destruct (qph c); try discriminate; auto.
+Qed.
+
+Lemma qprogress : forall (source : list (res V)) (m : qstate), qinv ncons beh source m -> qcomplete m = false ->
+  exists ch, qenabled m ch = true.
+Proof.
+  intros source m (Hlen & _ & Hcur & Hcons & _ & _) Hc. destruct (qpp m) as [|x i|] eqn:Hp.
+  - exists QPull. cbn [qenabled]. rewrite Hp. reflexivity.
+  - pose proof (Hcur x i eq_refl) as Hi.
+    destruct (nth_error (qcs m) i) as [[log ph]|] eqn:Hn; [|apply nth_error_None in Hn; lia].
+    destruct ph.
+    + exists QSend. cbn [qenabled]. rewrite Hp, Hn. reflexivity.
+    + exists (QReady i). cbn [qenabled]. rewrite Hn. reflexivity.
+    + exists QSkip. cbn [qenabled]. rewrite Hp, Hn. reflexivity.
+    + exists QSkip. cbn [qenabled]. rewrite Hp, Hn. reflexivity.
+    + specialize (Hcons i _ Hn). unfold cons_ok in Hcons. cbn [qph] in Hcons. destruct Hcons as (Hq & _). congruence.
+  - unfold qcomplete in Hc. rewrite Hp in Hc. destruct (nonfinal_exists _ Hc) as (j & [log ph] & Hj & [Hq|Hq]); cbn [qph] in Hq; subst ph.
+    + exists (QEof j). cbn [qenabled]. rewrite Hp, Hj. reflexivity.
+    + exists (QReady j). cbn [qenabled]. rewrite Hj. reflexivity.
+Qed.
+
+Lemma qcomplete_exists : forall (source : list (res V)) n (m : qstate), qmeasure ncons m <= n -> qinv ncons beh source m ->
+  exists sched, length sched <= n /\ qcomplete (qrun m sched) = true.
+Proof.
+  intros source. induction n as [|n IH]; intros m Hm Hi.
+  - destruct (qcomplete m) eqn:Hc; [exists []; split; [reflexivity|exact Hc]|].
+    destruct (qprogress source m Hi Hc) as (ch & Hen). apply qstep_enabled in Hen; [lia|apply Hi].
+  - destruct (qcomplete m) eqn:Hc; [exists []; split; [cbn; lia|exact Hc]|].
+    destruct (qprogress source m Hi Hc) as (ch & Hen). pose proof (qstep_enabled m ch (proj1 (proj2 (proj2 Hi))) Hen).
+    destruct (IH (qstep m ch)) as (sched & Hl & Hd); [lia|apply qinv_step; exact Hi|].
+    exists (ch :: sched). split; [cbn; lia|exact Hd].
+Qed.
+
+Fixpoint qall_enabled (m : qstate) (sched : list qchoice) : bool :=
+  match sched with [] => true | ch :: r => qenabled m ch && qall_enabled (qstep m ch) r end.
+
+Lemma qenabled_bounded : forall (source : list (res V)) sched (m : qstate), qinv ncons beh source m -> qall_enabled m sched = true ->
+  length sched + qmeasure ncons (qrun m sched) <= qmeasure ncons m.
+Proof.
+  intros source. induction sched as [|ch sched IH]; intros m Hi H; [cbn; lia|]. cbn [qall_enabled] in H. apply andb_true_iff in H.
+  destruct H as (Hen & Hrest). specialize (IH _ (qinv_step ncons beh source m ch Hi) Hrest).
+  pose proof (qstep_enabled m ch (proj1 (proj2 (proj2 Hi))) Hen). cbn [length CopyProdStop.qrun fold_left] in *. unfold CopyProdStop.qrun in IH. lia.
+Qed.
+
+Lemma multi_use_stop_no_deadlock_lem : forall (source : list (res V)) sched,
+  let m := qrun (qinit ncons source) sched in
+  (exists sched', qcomplete (qrun (qinit ncons source) (sched ++ sched')) = true) /\
+  (qcomplete m = false -> exists ch, qenabled m ch = true) /\
+  (forall more, qall_enabled m more = true -> length more <= qmeasure ncons m).
+Proof.
+  intros source sched m. pose proof (qinv_run ncons beh source sched _ (qinv_init ncons beh source)) as Hi. fold m in Hi. split; [|split].
+  - destruct (qcomplete_exists source _ m (le_n _) Hi) as (sched' & _ & Hd). exists sched'.
+    unfold CopyProdStop.qrun in *. rewrite fold_left_app. exact Hd.
+  - apply (qprogress source). exact Hi.
+  - intros more H. pose proof (qenabled_bounded source more m Hi H). lia.
+Qed.
+End StopProgress.
